@@ -78,7 +78,7 @@ def run(tier, seed):
     # written by `save` is predicted by Repl.tla and replayed through the real binary
     if not rep.violations:
         from checks import x_repl
-        x_repl.repl_conformance(rep, d, "c07", 3 if tier == "quick" else 5, label="repl")
+        x_repl.repl_conformance(rep, d, "c07", 3 if tier == "quick" else 4, label="repl")
     rep.set("rule", "all histories of <= Depth inputs over the statement-template alphabets plus TLC-simulated long "
             "histories; each executed incrementally, batched, split at every cut, saved+replayed, and continued on a "
             "clone after every prefix; non-trivial = all-successful histories with >= 2 inputs")
